@@ -158,6 +158,7 @@ def run_case(case):
                 cv = still_validates(new, case["vk"]) and rec not in new.notifiers
                 ts = new
                 ts.notifiers.append(rec)
+                oev = None          # the copy is detached from the owner: its observers do not follow it
             else:
                 raise ValueError(k)
         except Exception as e:  # noqa
